@@ -62,16 +62,17 @@ class ClientProxyBuilder(object):
 
     def is_user_method(m):
       return ((inspect.ismethod(m) or inspect.isfunction(m))
-              and not inspect.isbuiltin(m)
-              and not ClientProxyBuilder._method_name(m).startswith('__')
-              and not ClientProxyBuilder._method_name(m).endswith('__'))
+              and not inspect.isbuiltin(m))
 
-    # Get all methods defined on the interface.
-    iface_methods = { m[0]: ProxyMethod(*m)
-                      for m in inspect.getmembers(Iface, is_user_method) }
+    # Get all methods defined on the interface.  A method is a user method by
+    # the name it is exposed under, not by the name of the underlying function
+    # (the two differ for aliases).
+    user_methods = [m for m in inspect.getmembers(Iface, is_user_method)
+                    if not m[0].startswith('__') and not m[0].endswith('__')]
+    iface_methods = { m[0]: ProxyMethod(*m) for m in user_methods }
     iface_methods.pop('__init__', None)
     iface_methods.update({ m[0] + "_async": ProxyMethod(*m, asynchronous=True)
-                           for m in inspect.getmembers(Iface, is_user_method) })
+                           for m in user_methods })
 
     # Create a proxy class to intercept the interface's methods.
     proxy = type(
